@@ -14,8 +14,11 @@ import (
 	"flag"
 	"fmt"
 	"math"
+	"os"
 	"sort"
 	"strings"
+	"sync"
+	"verif/harness/internal/fonts"
 
 	"github.com/benoitkugler/webrender/backend"
 
@@ -193,6 +196,25 @@ type dcBox struct {
 	Opac    bool   `json:"opac"`
 	Tf      bool   `json:"tf"`
 	Outline bool   `json:"outline"`
+	Txt     string `json:"txt"` // "plain" | "fallback": a text whose middle glyph is missing from the first font of the family list
+}
+
+// c14PartialFont is a font of resources_test that only has the glyphs A and a: a text mixing them with other letters is
+// drawn with two fonts in one text box (font fallback).
+var (
+	c14PartialOnce sync.Once
+	c14Partial     string
+)
+
+func c14Files() map[string]string {
+	c14PartialOnce.Do(func() {
+		b, err := os.ReadFile(fonts.Dir + "/weasyprint.otb_fixed")
+		if err != nil {
+			panic("verif: cannot read the partial font: " + err.Error())
+		}
+		c14Partial = string(b)
+	})
+	return map[string]string{"http://verif.test/partial.otf": c14Partial}
 }
 
 func c14DecorHTML(d *dcBox) string {
@@ -210,6 +232,12 @@ func c14DecorHTML(d *dcBox) string {
 		st += "background:linear-gradient(red,blue);"
 	case "radial":
 		st += "background:radial-gradient(red,blue);"
+	case "radial-side":
+		st += "background:radial-gradient(closest-side at left, red, blue);"
+	case "radial-corner":
+		st += "background:radial-gradient(closest-corner at top left, red, blue);"
+	case "radial-zero":
+		st += "background:radial-gradient(circle 0px at 50% 50%, red, blue), radial-gradient(ellipse closest-side at 0 50%, red 50%, blue 50%);"
 	case "tile-repeat":
 		st += "background:linear-gradient(red,blue) 0 0/7px 7px repeat;"
 	case "tile-space":
@@ -231,8 +259,13 @@ func c14DecorHTML(d *dcBox) string {
 	if d.Outline {
 		st += "outline:2px dashed #456;"
 	}
-	return `<html><head><style>@page{size:100px 100px;margin:10px}body{margin:0;font-family:weasyprint;font-size:8px;line-height:10px}</style></head><body>` +
-		`<div style="` + st + `">x</div><div style="` + st + `"></div></body></html>`
+	txt, face := "x", ""
+	if d.Txt == "fallback" {
+		txt = `<span style="font-family:partial,weasyprint">AbA</span>`
+		face = `@font-face{font-family:partial;src:url(http://verif.test/partial.otf)}`
+	}
+	return `<html><head><style>` + face + `@page{size:100px 100px;margin:10px}body{margin:0;font-family:weasyprint;font-size:8px;line-height:10px}</style></head><body>` +
+		`<div style="` + st + `">` + txt + `</div><div style="` + st + `"></div></body></html>`
 }
 
 type c14Ev struct {
@@ -290,7 +323,9 @@ func c14Project(r *rec.Doc) []c14Ev {
 var c14Kind = "decor"
 
 func c14ProtoMain(args []string) int {
-	return drv.Main("c14proto", args, func(fs *flag.FlagSet) { fs.StringVar(&c14Kind, "kind", "decor", "scenario kind: decor | c02 | c13 | c16 | links") }, func(line []byte, out *drv.Out) {
+	return drv.Main("c14proto", args, func(fs *flag.FlagSet) {
+		fs.StringVar(&c14Kind, "kind", "decor", "scenario kind: decor | c02 | c13 | c16 | links")
+	}, func(line []byte, out *drv.Out) {
 		var doc string
 		switch c14Kind {
 		case "decor":
@@ -334,7 +369,13 @@ func c14ProtoMain(args []string) int {
 		}
 		zooms := []float64{1, 0.5, 3}
 		z := zooms[out.Cur%len(zooms)]
-		pages, r, err := drv.RenderPages(doc, &drv.Opts{Zoom: float32(z)})
+		o := &drv.Opts{Zoom: float32(z)}
+		if strings.Contains(doc, "verif.test/partial.otf") {
+			o.Files = c14Files()
+			o.MimeType = map[string]string{"http://verif.test/partial.otf": "font/otf"}
+			o.FreshFC = true // (@font-face adds the font to the configuration: not to the shared one)
+		}
+		pages, r, err := drv.RenderPages(doc, o)
 		if err != nil {
 			out.Fatal(err.Error())
 			return
